@@ -18,7 +18,7 @@ func init() {
 		ID: "C06", Level: "model_checking",
 		Rule:   "ELX: peer INITIAL_WINDOW_SIZE in {0,1,5}; a prelude response of 65530 bytes leaves the connection window at 5; 1-2 (quick) / 3 (thorough) streams with response sizes from {0,1,3,6,16384,16385,40000}, buffered or streamed; every sequence up to the depth bound of {handler i returns, WINDOW_UPDATE(stream i, 1|2|big), WINDOW_UPDATE(0, 1|3|big), SETTINGS_INITIAL_WINDOW_SIZE in {0,1,4,70000}, RST_STREAM(i)}; then a closing phase grants everything. Oracle: the peer's ledger (initial windows, SETTINGS deltas, WINDOW_UPDATE credits, DATA debits) never goes below zero at a DATA frame, no DATA frame above 16384, at every quiescent state no stream with unsent bytes has both windows positive, and every response completes with END_STREAM once. Non-trivial: a window blocked a send at some point of the sequence; distinct by (config, sequence).",
 		Assume: []string{"canonical internal schedule between events", "DATA frames are attributed to windows in the order the peer receives them"},
-		Run:    runC06, Replay: replayC06, QuickS: 60, ThoroughS: 900,
+		Run:    runC06, Replay: replayC06, QuickS: 120, ThoroughS: 900,
 	})
 }
 
@@ -44,6 +44,10 @@ type ledger struct {
 	stream  map[uint32]int64
 	sent    map[uint32]int
 	blocked bool
+	// acknowledgement-aware mode (client checks): see sendSettings
+	ackAware bool
+	acked    int64
+	unacked  []int64
 }
 
 func newLedger(init uint32) *ledger {
@@ -51,6 +55,43 @@ func newLedger(init uint32) *ledger {
 }
 
 func (l *ledger) open(id uint32) { l.stream[id] = l.init }
+
+// sendSettings / ack: the receiver's view when it cannot know at which moment the sender applied a SETTINGS
+// frame. Between sending SETTINGS and seeing its acknowledgement the sender may be using the old or the new
+// INITIAL_WINDOW_SIZE, so the bound in force is the largest of the last acknowledged value and every value
+// still unacknowledged (v < 0: a SETTINGS frame that does not carry the parameter).
+func (l *ledger) sendSettings(v int64) {
+	if !l.ackAware {
+		l.ackAware, l.acked = true, l.init
+	}
+	l.unacked = append(l.unacked, v)
+	l.rebound()
+}
+
+func (l *ledger) ack() {
+	if !l.ackAware || len(l.unacked) == 0 {
+		return
+	}
+	if v := l.unacked[0]; v >= 0 {
+		l.acked = v
+	}
+	l.unacked = l.unacked[1:]
+	l.rebound()
+}
+
+func (l *ledger) rebound() {
+	b := l.acked
+	for _, v := range l.unacked {
+		if v > b {
+			b = v
+		}
+	}
+	d := b - l.init
+	l.init = b
+	for id := range l.stream {
+		l.stream[id] += d
+	}
+}
 
 func (l *ledger) settings(v uint32) {
 	d := int64(v) - l.init
